@@ -16,6 +16,7 @@ import (
 	"strconv"
 	"strings"
 	"sync"
+	"sync/atomic"
 	"testing"
 	"time"
 
@@ -46,10 +47,14 @@ import (
 //	                 Store.Snapshot(0) - raft calls the FSM's Snapshot (the store checkpoints
 //	                 and stages the WAL) and then refuses to persist ("wait until the
 //	                 configuration entry ... has been applied") - then the non-voter is removed
-//	F  snapshot whose Persist fails after the sink was written and before it is closed:
-//	                 the fingerprint's temporary file cannot be created (a directory is in
-//	                 its place for the duration of this one snapshot), so the finalizer
-//	                 errors, raft cancels the sink; a staged WAL is not consumed
+//	F  snapshot whose Persist fails before the staged WAL is consumed: the store's
+//	                 Checkpointer is wrapped for this one snapshot; right after the incremental
+//	                 checkpoint succeeded (WAL staged) the wrapper raises the snapshot store's
+//	                 full-needed requirement, as a load applied during the persist would; the
+//	                 sink's Write refuses the incremental header, Persist fails, raft cancels
+//	                 the sink; the requirement is withdrawn again afterwards. The harness
+//	                 verifies the failed persist and the retained WAL. When the store takes a
+//	                 full snapshot here (or none) there is nothing to fail: F is then S.
 //	L  load          Store.Load of a SQLite file (goes through the raft log)
 //	B  boot          Store.ReadFrom of a SQLite file (bypasses the log, snapshots itself)
 //	R  reap          Store.Reap()
@@ -566,11 +571,7 @@ func (c *c04Exec) step(i int, op byte) {
 		c04Must(c.hist, "remove", s.Remove(context.Background(), removeNodeRequest(id)))
 		c.obs = append(c.obs, "K="+cls)
 	case 'F':
-		blk := s.cleanSnapshotPath + ".tmp"
-		c04Must(c.hist, "block fingerprint", os.Mkdir(blk, 0755))
-		cls := c.snapErrClass(s.Snapshot(0))
-		os.Remove(blk) // the finalizer removes it itself when it ran
-		c.obs = append(c.obs, "F="+cls)
+		c.obs = append(c.obs, "F="+c04SnapshotPersistFails(c.hist, s, c.snapErrClass))
 	case 'L':
 		f := c.files[c.nFileOps%2]
 		c.nFileOps++
@@ -584,7 +585,7 @@ func (c *c04Exec) step(i int, op byte) {
 		c.fullReason = "boot"
 		c.fileOpDone('B', i, err, f)
 	case 'R':
-		n, w, err := s.Reap()
+		n, w, err := c04Reap(s.Reap)
 		if err != nil {
 			c.violate(c.mechanism(), "reap-fails", fmt.Sprintf("operation %d: reaping the snapshot store fails: %v", i, err))
 			c.obs = append(c.obs, "R=error")
@@ -605,6 +606,56 @@ func (c *c04Exec) step(i int, op byte) {
 }
 
 type c04Stop struct{}
+
+// c04PersistBreaker makes the Persist of ONE incremental snapshot fail before the staged
+// WAL is consumed, through the sink's own Write path: it wraps the store's Checkpointer
+// (passing everything through) and, right after the checkpoint of an incremental snapshot
+// succeeded (the WAL is staged by then), raises the snapshot store's full-needed
+// requirement - which is what happens when the FSM applies a load while a snapshot is
+// being persisted. The sink then refuses the incremental header ("full snapshot needed
+// before incremental can be applied"), Persist returns that error, raft cancels the sink.
+type c04PersistBreaker struct {
+	inner Checkpointer
+	s     *Store
+	fired atomic.Bool
+}
+
+func (b *c04PersistBreaker) Checkpoint(w io.Writer, timeout time.Duration) (*sql.CheckpointManagerMeta, int64, error) {
+	meta, n, err := b.inner.Checkpoint(w, timeout)
+	if w != nil && err == nil && b.fired.CompareAndSwap(false, true) {
+		if serr := b.s.snapshotStore.SetDueNext(snapshot.Full); serr != nil {
+			panic(fmt.Sprintf("c04 harness: cannot raise full-needed: %v", serr))
+		}
+	}
+	return meta, n, err
+}
+
+// c04SnapshotPersistFails is operation F: a snapshot whose Persist fails before the staged
+// WAL is consumed. The requirement raised by the breaker is withdrawn again afterwards, so
+// the only thing that remains of the injection is the failed Persist. It is checked that
+// the persist really failed and that exactly one more WAL is staged; when the snapshot
+// the store takes here is not an incremental one (a full snapshot is due, nothing to
+// snapshot) there is no incremental persist to fail and F is an ordinary snapshot.
+func c04SnapshotPersistFails(hist string, s *Store, classify func(error) string) string {
+	staged := func() int {
+		fs, _ := filepath.Glob(filepath.Join(s.walStagingDir, "*.wal"))
+		return len(fs)
+	}
+	before := staged()
+	br := &c04PersistBreaker{inner: s.checkpointer, s: s}
+	s.checkpointer = br
+	err := s.Snapshot(0)
+	s.checkpointer = br.inner
+	cls := classify(err)
+	if !br.fired.Load() {
+		return cls + "(no-incremental-persist)"
+	}
+	c04Must(hist, "withdraw full-needed", s.snapshotStore.SetDueNext(snapshot.Incremental))
+	if err == nil || !strings.Contains(err.Error(), "failed to persist snapshot") || staged() != before+1 {
+		panic(fmt.Sprintf("c04 harness: history %q: the persist was meant to fail with the WAL retained, but the snapshot returned %v and the staging directory went from %d to %d WAL files", hist, err, before, staged()))
+	}
+	return cls
+}
 
 // c04DumpKey appends "history, key, outcomes" to the file named by VERIF_DUMPKEYS (for
 // comparing two runs while developing the harness).
@@ -1076,11 +1127,14 @@ func TestVerif_C04(t *testing.T) {
 	}
 	ran := map[string]bool{}
 	nres := 0
+	nFFailed, nKSkipped := 0, 0
 	record := func(res *c04Result) {
 		ran[res.hist] = true
 		r.Eval(1)
 		r.Transition(res.steps + 1)
 		r.Distinct(res.key + " || " + res.obs)
+		nFFailed += strings.Count(res.obs, "F=persist-failed")
+		nKSkipped += strings.Count(res.obs, "K=persist-skipped")
 		c04DumpKey(res)
 		r.SampleEvery(nres, map[string]any{"history": res.hist, "outcomes": res.obs, "state_key": res.key, "violations": len(res.violations)})
 		nres++
@@ -1158,5 +1212,27 @@ func TestVerif_C04(t *testing.T) {
 		}
 	}
 	r.Note("directed: %d further prefixes run", ndir)
+	r.Set("persists_failed_by_F", nFFailed)
+	r.Set("persists_skipped_by_K", nKSkipped)
+	if nFFailed == 0 || nKSkipped == 0 {
+		r.Cap("the fault operations did not take effect: F failed %d persists, K had %d persists skipped", nFFailed, nKSkipped)
+		t.Fatalf("c04 harness: the fault operations did not take effect: F failed %d persists, K had %d persists skipped", nFFailed, nKSkipped)
+	}
 	r.State(states)
+}
+
+// c04Reap calls the store's explicit Reap. Reap takes the snapshot store's lock without
+// waiting and reports "MSRW conflict" when anything holds it at that instant; raft itself
+// lists the snapshot store from its own goroutine now and then (a read hold of
+// microseconds). Such a refusal is not a failed reap: ask again (the real periodic reaper
+// does the same on its next tick).
+func c04Reap(reap func() (int, int, error)) (n, w int, err error) {
+	for try := 0; try < 50; try++ {
+		n, w, err = reap()
+		if err == nil || !strings.Contains(err.Error(), "MSRW conflict") {
+			return
+		}
+		time.Sleep(20 * time.Millisecond)
+	}
+	return
 }
